@@ -6,10 +6,13 @@ claimed = {
  "C08": dict(cat="exploration", ref="§6 C08", tech="deterministic simulation with fault injection: discrete-event clock, baton scheduler over parser/timer/consumer/reader tasks, EOF/error/Close at tape-chosen (thorough: every) offsets, history oracles + reference automaton with TIMEOUT input",
    text="Whole-lifecycle simulation of the parser: the Escape timer callback is a schedulable task on a fake clock, so timer-vs-byte, timer-vs-EOF and timer-vs-Close coincidences are hit and replayed; consumers stall, retain or stop; input ends by EOF, error, (n>0,err) or Close at sampled and (thorough) every byte offset. Bounded liveness (clean stop within 120 simulated s) and history oracles (single trailing EOF, immutability of delivered items, Escape exactly-once) decide the property on each run.",
    note="Escape delay calibrated on the code under test; gaps the parser cannot observe are accepted either way; partial strings at EOF unconstrained."),
+ "C01": dict(cat="exploration", ref="§6 C01", tech="deterministic simulation: whole real Vaxis sessions (start-up handshake, input goroutine, renderer) under a seeded scheduler against a reference terminal; seeded frame histories, capability subsets, resizes/refresh/scramble faults; cell-by-cell oracle from the application's own record",
+   text="Seeded simulation of complete sessions: every run starts a real Vaxis on a simulated console, negotiates capabilities with the reference terminal (all 1024 gating subsets walked by index), draws a generated frame history with resizes (signal seam or in-band), refreshes and display scrambles injected, user input arriving meanwhile, and compares the terminal with the application's own record after every flush. Frame histories and (previous cell, next cell) pairs are sampled, not enumerated: evidence, not proof, which is the level a diff renderer over an unbounded history space admits.",
+   note="Trusted: simterm as a standards-conforming terminal for the emitted vocabulary (cells the standards leave open are marked unspecified and their survival is itself a violation); uniseg/go-runewidth as width personalities; prompt (0-5 ms) terminal replies; reliable FIFO streams."),
 }
 PENDING = "check not built yet in this session; it will be claimed when its world exists (see DESIGN.md §12)"
 na = {
- "C01": PENDING, "C03": PENDING, "C04": PENDING, "C05": PENDING, "C06": PENDING, "C07": PENDING,
+ "C03": PENDING, "C04": PENDING, "C05": PENDING, "C06": PENDING, "C07": PENDING,
  "C10": PENDING, "C12": PENDING, "C13": PENDING, "C15": PENDING, "C20": PENDING,
  "C09": "pure functions of one report / one (event, binding) pair: no schedule, clock, fault or interleaving for a simulator to control; delivery of key events through the concurrent pipeline is decided under C03",
  "C11": "window clipping and the text helpers are pure functions of (window tree, call); no goroutine, timer or stream is involved",
